@@ -261,12 +261,17 @@ func handleShareMemoryByMemFd(s *Session, h header) error {
 	//4.mapping share memory
 	qm, err := mappingQueueManagerMemfd(queuePath, queueFd)
 	if err != nil {
+		// nothing owns the received descriptors yet
+		_ = syscall.Close(queueFd)
+		_ = syscall.Close(bufferFd)
 		return err
 	}
 	s.queueManager = qm
 	vpo(vpHandshake, s, 13)
 	bm, err := getGlobalBufferManagerWithMemFd(bufferPath, bufferFd, 0, false, nil)
 	if err != nil {
+		// the queue is released through s.queueManager by the caller; the buffer descriptor has no owner
+		_ = syscall.Close(bufferFd)
 		return err
 	}
 
